@@ -197,6 +197,16 @@ M("C13", "sdf-terminator-only-after-last-frame", F + "sdf.py", r'    print\("\$\
 M("C13", "pdb-end-record-dropped", F + "pdb.py", r'    print\("END", file=f\)', '    print("TER", file=f)', "C13-R16")
 M("C13", "mol2-dump-many-last-frame-first", F + "mol2.py", r"    for data in datas:\n        dump_one\(f, data\)", "    for data in sorted(datas, key=lambda d: -d.natom):\n        dump_one(f, data)", "C13-R16")
 T("C13", "mol2-dump-many-through-local", F + "mol2.py", r"    for data in datas:\n        dump_one\(f, data\)", "    for frame in datas:\n        dump_one(f, data=frame)")
+# ----------------------------------------------------------------------------- round-3 agent twins: evaluated clauses
+M("C07", "lineiterator-back-keeps-counter", "iodata/utils.py", r"        self\.stack\.append\(line\)\n        self\.lineno -= 1", "        self.stack.append(line)", "C07-R6")
+T("C07", "lineiterator-stack-alias", "iodata/utils.py", r"        return self\.stack\.pop\(\) if self\.stack else next\(self\.fh\)", "        stack = self.stack\n        if stack:\n            return stack.pop()\n        return next(self.fh)")
+M("C11", "spinpol-getter-prefers-stored", "iodata/iodata.py", r"        if self\.mo is not None:\n            return self\.mo\.spinpol\n        return self\._spinpol", "        if self._spinpol is not None or self.mo is None:\n            return self._spinpol\n        return self.mo.spinpol", "C11-R2")
+T("C11", "spinpol-getter-through-local", "iodata/iodata.py", r"        if self\.mo is not None:\n            return self\.mo\.spinpol\n        return self\._spinpol", "        mo = self.mo\n        if mo is None:\n            return self._spinpol\n        return mo.spinpol")
+M("C11", "charge-getter-ignores-orbitals", "iodata/iodata.py", r"        return self\.atcorenums\.sum\(\) - self\.nelec\n", "        return self.atcorenums.sum() - (self._nelec if self._nelec is not None else self.nelec)\n", "C11-R3")
+T("C14", "generalized-guard-through-local", "iodata/prepare.py", r'    if data\.mo\.kind == "generalized":\n        raise ValueError\("prepare_unrestricted_aminusb', '    mo = data.mo\n    if mo.kind == "generalized":\n        raise ValueError("prepare_unrestricted_aminusb')
+M("C04", "vasp-direct-keyword-taken-for-cartesian", F + "chgcar.py", r'cartesian = line\[0\]\.lower\(\) in \["c", "k"\]', 'cartesian = line[0].lower() in ["c", "k", "d"]', "C04-R4")
+T("C04", "vasp-mode-switch-in-a-helper", F + "chgcar.py", r'    line = next\(lit\)\n    # the 7th line can optionally indicate selective dynamics\n    if line\[0\]\.lower\(\) in \["s"\]:\n        line = next\(lit\)\n    # parse direct/cartesian switch\n    cartesian = line\[0\]\.lower\(\) in \["c", "k"\]\n', '    cartesian = _mode(lit)\n', also=[(r"\ndef _load_vasp_header\(", "\ndef _mode(lit):\n    line = next(lit)\n    if line[0].lower() in [\"s\"]:\n        line = next(lit)\n    return line[0].lower() in [\"c\", \"k\"]\n\n\ndef _load_vasp_header(")])
+M("C08", "json-dispatch-table-drops-preflight-variant", F + "json_qcschema.py", r'    elif schema_name == "qcschema_basis":\n        raise NotImplementedError\(f"\{schema_name\} not yet implemented in IOData\."\)', '    elif schema_name in ("qcschema_basis", "qcschema_wavefunction"):\n        raise NotImplementedError(f"{schema_name} not yet implemented in IOData.")', "C08-R7")
 # ----------------------------------------------------------------------------- C14
 M("C14", "segmented-reversed", "iodata/convert.py", r"    for shell in obasis\.shells:\n        if \(shell\.ncon == 1\)", "    for shell in reversed(obasis.shells):\n        if (shell.ncon == 1)", "C14-R1")
 M("C14", "segmented-wrong-exponents", "iodata/convert.py", r"Shell\(shell\.icenter, \[angmom\], \[kind\], shell\.exponents, coeffs\.reshape\(-1, 1\)\)", "Shell(shell.icenter, [angmom], [kind], shell.exponents[::-1], coeffs.reshape(-1, 1))", "C14-R1")
